@@ -74,6 +74,8 @@ def cases(tier, seed, shard, nshards):
                            "enumerated": True, "exc": PLANNED_NAMES[(idx // nshards) % len(PLANNED_NAMES)]}
     for k, (arg, typed, positional) in enumerate(itertools.product(range(len(CONSTRUCT_MAXSIZE)), [False, True, 0, 1, None, "yes"],
                                                                      [False, True])):
+        if CONSTRUCT_MAXSIZE[arg] == "<the function itself>" and not isinstance(typed, bool):
+            continue  # (functools refuses a non-bool ``typed`` in this form only: argument validation, not compared)
         if k % nshards == shard:
             yield {"kind": "construct", "arg": arg, "typed": typed, "positional": positional}
     for k, (maxsize, typed, form) in enumerate(itertools.product([None, 0, 1, 3], [False, True], ["paren", "bare"])):
@@ -408,7 +410,8 @@ def run_attrs(case, stats):
     return {"violations": viols, "nontrivial": True, "sig": ("attrs", str(case))}
 
 
-CONSTRUCT_MAXSIZE = ["x", 1.5, b"", [], (), True, False, -5, -1, 0, 1, 2 ** 40, None, {}, 0.0]
+CONSTRUCT_MAXSIZE = ["x", 1.5, b"", [], (), True, False, -5, -1, 0, 1, 2 ** 40, None, {}, 0.0,
+                     "<the function itself>", "<the function itself>"]  # lru_cache(fn, typed) applied directly
 
 
 def run_construct(case, stats):
@@ -424,20 +427,39 @@ def run_construct(case, stats):
     def sf(x):
         return ("r", x)
 
+    direct = v == "<the function itself>"
+    seen_a, seen_s = [], []
+
+    async def af(x):  # noqa: F811
+        seen_a.append(type(x).__name__)
+        return ("r", x, len(seen_a))
+
+    def sf(x):  # noqa: F811
+        seen_s.append(type(x).__name__)
+        return ("r", x, len(seen_s))
+
     def build_a():
-        c = (A.lru_cache(v, typed) if case["positional"] else A.lru_cache(maxsize=v, typed=typed))(af)
+        if direct:
+            c = A.lru_cache(af, typed) if case["positional"] else A.lru_cache(af, typed=typed)
+        else:
+            c = (A.lru_cache(v, typed) if case["positional"] else A.lru_cache(maxsize=v, typed=typed))(af)
         out = [dict(c.cache_parameters()), tuple(c.cache_info())]
-        for x in (1, 2, 1, 3, 1):
+        for x in (1, 2, 1.0, True, 1, 3, 2.0, 1):  # equal values of different types: distinct entries iff typed
             out.append(run_sync(c(x)))
         out.append(tuple(c.cache_info()))
+        out.append(list(seen_a))
         return out
 
     def build_s():
-        c = (functools.lru_cache(v, typed) if case["positional"] else functools.lru_cache(maxsize=v, typed=typed))(sf)
+        if direct:
+            c = functools.lru_cache(sf, typed) if case["positional"] else functools.lru_cache(sf, typed=typed)
+        else:
+            c = (functools.lru_cache(v, typed) if case["positional"] else functools.lru_cache(maxsize=v, typed=typed))(sf)
         out = [dict(c.cache_parameters()), tuple(c.cache_info())]
-        for x in (1, 2, 1, 3, 1):
+        for x in (1, 2, 1.0, True, 1, 3, 2.0, 1):
             out.append(c(x))
         out.append(tuple(c.cache_info()))
+        out.append(list(seen_s))
         return out
 
     ga, gs = _outcome(build_a), _outcome(build_s)
